@@ -25,7 +25,7 @@ FEATURES = [
     "consts", "enums", "typedefs", "unions", "nested", "opt_scalar", "opt_comp",
     "arr_fixed", "arr_limited", "arr_dynamic", "arr_greedy", "arr_ext", "bytes",
     "floats", "wide", "narrow", "comp_arrays", "shared_sizer", "dyn_nested",
-    "big_disc", "const_sizes", "signed_sizer",
+    "big_disc", "const_sizes", "signed_sizer", "sym_values",
 ]
 
 FIXED, DYNAMIC, UNLIMITED = 0, 1, 2
@@ -39,6 +39,8 @@ class _Env(object):
         self.types = {}      # name -> {"cat": int|float|enum|struct|union, "stiff": 0..2}
         self.order = []      # user type names in definition order
         self.consts = []     # [(name, value)] usable as array sizes
+        self.plain_consts = []   # constants proper (not enumerators)
+        self.enumerators = []    # [(name, value)]
         self.counters = {}
         for t in INTS:
             self.types[t] = {"cat": "int", "stiff": FIXED}
@@ -118,6 +120,7 @@ def _gen_const(tape, env):
         expr = str(value)
     env.defs.append({"k": "const", "name": name, "expr": expr, "value": value})
     env.consts.append((name, value))
+    env.plain_consts.append((name, value))
 
 
 def _gen_enum(tape, env):
@@ -130,17 +133,25 @@ def _gen_enum(tape, env):
             v = tape.pick([0x7fffffff, 0x80000000, 0xffffffff, 65536, 255, 256])
         else:
             v = tape.draw(8) if i else tape.draw(3)
+        vtext = None
+        if env.feats.get("sym_values") and env.plain_consts and tape.chance(1, 3):
+            cname, cval = tape.pick(env.plain_consts)
+            if cval not in used:
+                v, vtext = cval, cname
         while v in used:
             v = (v + 1) & 0xffffffff
+            vtext = None
         used.add(v)
-        members.append(["%s_%d" % (name, i), v])
+        members.append(["%s_%d" % (name, i), v] + ([vtext] if vtext else []))
     env.defs.append({"k": "enum", "name": name, "members": members})
     env.types[name] = {"cat": "enum", "stiff": FIXED}
     env.order.append(name)
     # enumerators with small positive values are legal array sizes
-    for mname, v in members:
+    for mem in members:
+        mname, v = mem[0], mem[1]
         if 1 <= v <= 6:
             env.consts.append((mname, v))
+        env.enumerators.append((mname, v))
 
 
 def _gen_typedef(tape, env):
@@ -166,10 +177,19 @@ def _gen_union(tape, env):
             d = tape.pick([0xffffffff, 0x80000000, 65536, 1000])
         else:
             d = i if not tape.chance(1, 4) else tape.draw(10)
+        dtext = None
+        if env.feats.get("sym_values") and env.enumerators and tape.chance(1, 3):
+            ename, eval_ = tape.pick(env.enumerators)
+            if eval_ not in used:
+                d, dtext = eval_, ename
         while d in used:
             d = (d + 1) & 0xffffffff
+            dtext = None
         used.add(d)
-        arms.append({"name": "a%d" % (i + 1), "type": tname, "disc": d})
+        arm = {"name": "a%d" % (i + 1), "type": tname, "disc": d}
+        if dtext:
+            arm["dtext"] = dtext
+        arms.append(arm)
     env.defs.append({"k": "union", "name": name, "arms": arms})
     env.types[name] = {"cat": "union", "stiff": FIXED}
     env.order.append(name)
@@ -401,7 +421,7 @@ def shape_digest(schema):
             out.append(["c", d["value"]])
         elif d["k"] == "enum":
             r(d["name"])
-            out.append(["e", [v for _, v in d["members"]]])
+            out.append(["e", [m[1] for m in d["members"]]])
         elif d["k"] == "typedef":
             t = r(d["type"])
             r(d["name"])
